@@ -4,6 +4,7 @@ import (
 	"fmt"
 	"math/rand"
 	"net/url"
+	"strings"
 	"sync"
 	"sync/atomic"
 	"time"
@@ -89,7 +90,10 @@ func c18Key(uri string) string { return "GET " + c18Host + " " + uri }
 func c18Basics(r *hx.Run, cw *c18World, ps *plans, rnd *rand.Rand, n int) {
 	for i := 0; i < n && !r.TooMany(); i++ {
 		// the key is "METHOD host request-URI" with the URI exactly as the client sent it (escapes kept)
-		shape := []string{"", "", "?q=a%20b", "?q=c+d&x=1", "/a%2Fb.txt", "/caf%C3%A9?x=%26y", "?pct=100%25"}[rnd.Intn(7)]
+		shape := []string{"", "", "?q=a%20b", "?q=c+d&x=1", "/a%2Fb.txt", "/caf%C3%A9?x=%26y", "?pct=100%25", "?session=" + strings.Repeat("0123456789abcdef", 48), "/" + strings.Repeat("deep/", 300) + "leaf"}[rnd.Intn(9)]
+		if len(shape) > 500 {
+			r.Add("purged_keys_longer_than_512_bytes", 1)
+		}
 		uri := fmt.Sprintf("/c18b/%d/%d", r.Seed, i) + shape
 		other := fmt.Sprintf("/c18b/%d/%d-neighbour", r.Seed, i) + shape
 		if shape != "" {
@@ -267,6 +271,13 @@ func c18Directed(r *hx.Run, cw *c18World, ps *plans, rnd *rand.Rand, n int) {
 		if probe.Err != nil || probe.Status != 200 {
 			r.Violate("followup_not_served", nil, "request after purge+fetch failed", probe.Brief(), cs)
 		}
+		// information only: the purge overlapped the fetch, so either order is a legal outcome (the fetch's
+		// response may be the key's entry afterwards, or the key may be cold again)
+		kindOfCache := "memory_only"
+		if _, ok := cw.stores[cn]; ok {
+			kindOfCache = "with_store"
+		}
+		r.Add("request_after_purge_overlapping_a_fetch:"+kindOfCache+":"+probe.Label, 1)
 		ps.del(uri)
 	}
 }
@@ -310,11 +321,17 @@ func c18SlowStore(r *hx.Run, cw *c18World, ps *plans, rnd *rand.Rand, n int) {
 			r.Distinct(fmt.Sprintf("slow_delete %s during=%s", cn, during.Label))
 		} else {
 			// (b) slow set: purge right after the fill; the persisted copy must not reappear
-			cw.slowSet.Store(int64(40 * time.Millisecond))
+			// usually 40 ms; one case in sixteen stalls for seconds (a store that hangs and then recovers)
+			stall := 40 * time.Millisecond
+			if i%16 == 2 {
+				stall = 2300 * time.Millisecond
+				r.Add("store_sets_stalling_for_seconds", 1)
+			}
+			cw.slowSet.Store(int64(stall))
 			first := cw.Cl.Do(rq)
 			pr := cw.purge(key, cn)
 			cw.slowSet.Store(0)
-			time.Sleep(90 * time.Millisecond)
+			time.Sleep(stall + 50*time.Millisecond)
 			_, have := cw.stores[cn].Peek(key)
 			after := cw.Cl.Do(rq)
 			r.Eval(1)
